@@ -30,12 +30,20 @@ from fractions import Fraction
 REPO = os.environ.get("ACN_REPO", "/repo")
 SITES_DIR = "acnportal/acnsim/network/sites"
 
-# (module file, factory, capacity parameter names, capacity settings: first = defaults)
+# (site, module file, factory, capacity parameter names, (capacities, voltage) settings: first = defaults)
 SITES = [
-    ("caltech", "caltech_acn.py", "caltech_acn", ["transformer_cap"], [[150], [80], [225.5]]),
+    ("caltech", "caltech_acn.py", "caltech_acn", ["transformer_cap"],
+     [([150], 208), ([80], 208), ([225.5], 208), ([150], 240)]),
     ("jpl", "jpl_acn.py", "jpl_acn", ["first_transformer_cap", "third_fourth_transformer_cap"],
-     [[45, 150], [30, 112.5], [75, 300]]),
-    ("office001", "office001_acn.py", "office001_acn", ["transformer_cap"], [[50], [150], [33.3]]),
+     [([45, 150], 208), ([30, 112.5], 208), ([75, 300], 208), ([45, 150], 240)]),
+    ("office001", "office001_acn.py", "office001_acn", ["transformer_cap"],
+     [([50], 208), ([150], 208), ([33.3], 208), ([50], 240)]),
+]
+# the deprecated wrapper (caltech_acn.py:106-113): called by keyword and POSITIONALLY, so that a swapped
+# argument in the wrapper shows up as a different topology / limits
+WRAPPERS = [
+    ("caltech", "caltech_acn.py", "CaltechACN", ["transformer_cap"],
+     [("kw", False, [150], 208), ("pos", True, [80], 240)]),
 ]
 
 
@@ -218,6 +226,8 @@ class Interp:
                         env[t.id] = v
             elif isinstance(st, ast.Expr):
                 self.ev(st.value, env)
+            elif isinstance(st, ast.Return) and st.value is not None:
+                self.ev(st.value, env)  # `return caltech_acn(…)` in the deprecated wrapper
             elif isinstance(st, ast.For):
                 it = self.ev(st.iter, env)
                 if isinstance(it, (str, list)) and isinstance(st.target, ast.Name):
@@ -327,6 +337,7 @@ structure Pod where
 /-- what is the same for every capacity and EVSE type of one site.  Rationals are (num, den). -/
 structure Topo where
   site : String
+  nominalV : Int × Nat
   capNames : List String
   stations : List String
   angles : List (Int × Nat)
@@ -341,6 +352,7 @@ structure Topo where
 
 /-- one executed factory call -/
 structure Inst where
+  factory : String
   topo : Nat
   basic : Bool
   caps : List (Int × Nat)
@@ -352,7 +364,7 @@ structure Inst where
 '''
 
 
-def _topo_of(site, cap_names, net, formulas):
+def _topo_of(site, cap_names, net, formulas, voltage):
     import numpy as np
     names = list(net.constraint_index)
     M = np.array(net.constraint_matrix, dtype=float)
@@ -396,9 +408,9 @@ def _topo_of(site, cap_names, net, formulas):
     lims = [_lim(formulas.get(nm, UNKNOWN), cap_names) for nm in names]
     sep = ",\n    "
     return (
-        "{ site := \"%s\",\n  capNames := %s,\n  stations := %s,\n  angles := [%s],\n  voltages := [%s],\n"
+        "{ site := \"%s\",\n  nominalV := %s,\n  capNames := %s,\n  stations := %s,\n  angles := [%s],\n  voltages := [%s],\n"
         "  conNames := %s,\n  rows := [\n    %s],\n  lims := [%s],\n  xfmrs := [\n    %s],\n  panels := [%s],\n  pods := [%s] }"
-        % (site, _strs(cap_names), _strs(net.station_ids),
+        % (site, _pair(voltage), _strs(cap_names), _strs(net.station_ids),
            ", ".join(_pair(a) for a in net._phase_angles), ", ".join(_pair(v) for v in net._voltages),
            _strs(names), sep.join(rows), ", ".join(lims), sep.join(xs),
            (("\n    " + sep.join(ps)) if ps else ""), (("\n    " + sep.join(pd_)) if pd_ else "")))
@@ -411,26 +423,47 @@ def gen_sites() -> str:
     topos = []       # distinct topology texts
     topo_site = []
     insts = []
-    with warnings.catch_warnings():
+    import contextlib
+    import io
+
+    def record(site, factory, cap_names, formulas, net, basic, caps, voltage):
+        t = _topo_of(site, cap_names, net, formulas, voltage)
+        if t not in topos:
+            topos.append(t)
+            topo_site.append(f"{site} at {voltage} V")
+        k = topos.index(t)
+        mx = sorted({Fraction(float(x)) for x in net.max_pilot_signals})
+        insts.append(
+            f"{{ factory := \"{factory}\", topo := {k}, basic := {'true' if basic else 'false'}, "
+            f"caps := [{', '.join(_pair(c) for c in caps)}],\n    "
+            f"limits := [{', '.join(_pair(float(x)) for x in net.magnitudes)}],\n    "
+            f"maxRates := [{', '.join(_pair(x) for x in mx)}], "
+            f"continuous := {'true' if bool(all(net.is_continuous)) else 'false'} }}")
+
+    with warnings.catch_warnings(), contextlib.redirect_stdout(io.StringIO()):
         warnings.simplefilter("ignore")
-        for site, fname, factory, cap_names, settings in SITES:
+        # nominal-voltage settings of all sites first: topo0/1/2 stay caltech/jpl/office001 at 208 V
+        for nominal_pass in (True, False):
+          for site, fname, factory, cap_names, settings in SITES:
             mod = importlib.import_module("acnportal.acnsim.network.sites." + fname[:-3])
             formulas = parse_formulas(fname, factory, cap_names)
-            for caps in settings:
+            for caps, voltage in settings:
+                if (voltage == 208) != nominal_pass:
+                    continue
                 for basic in (False, True):
-                    net = getattr(mod, factory)(basic_evse=basic, **dict(zip(cap_names, caps)))
-                    t = _topo_of(site, cap_names, net, formulas)
-                    if t not in topos:
-                        topos.append(t)
-                        topo_site.append(site)
-                    k = topos.index(t)
-                    mx = sorted({Fraction(float(x)) for x in net.max_pilot_signals})
-                    insts.append(
-                        f"{{ topo := {k}, basic := {'true' if basic else 'false'}, "
-                        f"caps := [{', '.join(_pair(c) for c in caps)}],\n    "
-                        f"limits := [{', '.join(_pair(float(x)) for x in net.magnitudes)}],\n    "
-                        f"maxRates := [{', '.join(_pair(x) for x in mx)}], "
-                        f"continuous := {'true' if bool(all(net.is_continuous)) else 'false'} }}")
+                    net = getattr(mod, factory)(basic_evse=basic, voltage=voltage, **dict(zip(cap_names, caps)))
+                    record(site, factory, cap_names, formulas, net, basic, caps, voltage)
+        for site, fname, factory, cap_names, calls in WRAPPERS:
+            mod = importlib.import_module("acnportal.acnsim.network.sites." + fname[:-3])
+            if not hasattr(mod, factory):
+                continue
+            formulas = parse_formulas(fname, factory, cap_names)
+            for how, basic, caps, voltage in calls:
+                if how == "kw":
+                    net = getattr(mod, factory)(basic_evse=basic, voltage=voltage, **dict(zip(cap_names, caps)))
+                else:
+                    net = getattr(mod, factory)(basic, voltage, *caps)
+                record(site, factory, cap_names, formulas, net, basic, caps, voltage)
     for k, t in enumerate(topos):
         out.append(f"/-- topology {k}: {topo_site[k]} -/\ndef topo{k} : Topo :=\n{t}\n")
     out.append("def topos : List Topo := [" + ", ".join(f"topo{k}" for k in range(len(topos))) + "]\n")
